@@ -42,6 +42,8 @@ rm -f /tmp/seed.$$.base
 if bash -c "$DEMO" >/tmp/seed.$$.d1 2>&1 && ! grep -q '^--- FAIL\|^FAIL' /tmp/seed.$$.d1; then echo "demo-with-patch: pass (BAD)"; R1=bad; else echo "demo-with-patch: fail (good)"; R1=ok; fi
 tail -5 /tmp/seed.$$.d1 | cut -c1-300; rm -f /tmp/seed.$$.d1
 git checkout -q -- .
+git apply -R --include='*' /tmp/seed.$$.cur/patch.diff 2>/dev/null  # removes files the patch added (checkout does not)
+git status --porcelain | awk '$1=="??"{print $2}' | grep -v '^OUT' | grep -v '^TASK.md$\|^PROPERTY.json$' | grep -v '_test.go$' | xargs -r rm -rf
 if bash -c "$DEMO" >/tmp/seed.$$.d2 2>&1 && ! grep -q '^--- FAIL\|^FAIL' /tmp/seed.$$.d2; then echo "demo-without-patch: pass (good)"; R2=ok; else echo "demo-without-patch: FAIL (BAD)"; tail -20 /tmp/seed.$$.d2 | cut -c1-300; R2=bad; fi
 rm -f /tmp/seed.$$.d2
 if [ $R1 = ok ] && [ $R2 = ok ]; then echo "RESULT confirmed"; else echo "RESULT not-confirmed"; exit 1; fi
